@@ -20,6 +20,10 @@ MAX_BLOCKS = 400         # do not inline huge bodies
 
 
 def load_known():
+    from . import align
+    ref = align.load_reference()
+    if ref is not None:
+        return set(ref["fns"])
     if not os.path.exists(KNOWN_FILE):
         return None
     with open(KNOWN_FILE) as fh:
